@@ -1115,3 +1115,12 @@ def m_str_parse_uint(ex, st, args, dty, canon):
 def m_anyhow(ex, st, args, dty, canon):
     fr = st.frames[-1]
     return ex.mk_sym(dty, 'anyhow!%s:%d:%d' % (fr.fn.text_hash, fr.bb, fr.visits.get(fr.bb, 0)))
+
+
+def m_record_first_seen_cut(ex, st, args, dty, canon):
+    v = env_event(ex, st, 'record_update_first_seen_time', (ex.snapshot(st, args[1]), args[2]), 'std::time::SystemTime')
+    return fut('ready', v)
+
+
+def cut_record_first_seen(ex):
+    ex.model_patterns.insert(0, (re.compile(r'^StateMachine::<.*>::record_update_first_seen_time$'), m_record_first_seen_cut))
